@@ -90,6 +90,10 @@ func NewParameterPool[T any](
 				"failed to persist generated parameter: [%w]",
 				err,
 			)
+			// Save returns no persisted parameter on failure. Do not add a
+			// nil element to the pool; the parameter will be generated again
+			// in the next iteration.
+			return
 		}
 
 		select {
